@@ -415,6 +415,46 @@ def ls_item(it, m, n, dtype):
             B, C = Ad, torch.eye(n, dtype=torch.float64)
         else:
             B, C = torch.eye(m, dtype=torch.float64), Ad
+    elif kind == "orth":
+        # (pass 9) rank deficiency WITHOUT exact zeros anywhere: A = U diag(s) V^T, random orthogonal U, V, `zeros` singular values
+        # equal to 0 (or the smallest equal to `smin` * largest): LU meets no exactly zero pivot, only round-off sized ones
+        r0 = min(m, n)
+        U, _ = torch.linalg.qr(torch.randn(m, m, generator=g, dtype=torch.float64))
+        V, _ = torch.linalg.qr(torch.randn(n, n, generator=g, dtype=torch.float64))
+        s = torch.logspace(0, -it.get("cexp", 1), r0, dtype=torch.float64) if r0 > 1 else torch.ones(1, dtype=torch.float64)
+        kz = min(it.get("zeros", 0), r0)
+        if kz:
+            s[r0 - kz:] = 0.0
+        if it.get("smin") is not None:
+            s[r0 - kz - 1] = it["smin"] * float(s[0])
+        A = (((U[:, :r0] * s) @ V[:, :r0].T) * (2.0 ** it.get("ascale", 0))).to(dt)
+        B, C, r = None, None, r0 - kz
+    elif kind == "lie":
+        # (pass 9) the stacked Jacobians the default Gauss-Newton solver receives in an under-determined geometry: N so3 parameters
+        # with ONE point pair each (blocks -[p]x, 3N x 3N of rank 2N: the rotation about the point is unobservable) or N se3
+        # parameters with TWO pairs each (blocks [[1, -[p]x], [1, -[q]x]], 6N x 6N of rank 5N)
+        N = it["N"]
+        def skew(v):
+            return torch.tensor([[0.0, -float(v[2]), float(v[1])], [float(v[2]), 0.0, -float(v[0])], [-float(v[1]), float(v[0]), 0.0]],
+                                dtype=torch.float64)
+        if it["group"] == "so3":
+            assert m == n == 3 * N
+            blocks = [-skew(torch.randn(3, generator=g, dtype=torch.float64)) for _ in range(N)]
+            r = 2 * N
+        else:
+            assert m == n == 6 * N
+            blocks = []
+            for _ in range(N):
+                p_, q_ = torch.randn(3, generator=g, dtype=torch.float64), torch.randn(3, generator=g, dtype=torch.float64)
+                I3 = torch.eye(3, dtype=torch.float64)
+                blocks.append(torch.cat([torch.cat([I3, -skew(p_)], 1), torch.cat([I3, -skew(q_)], 1)], 0))
+            r = 5 * N
+        A = torch.block_diag(*blocks)
+        if it.get("mix"):     # the same system in other coordinates (no block structure left for a pivoting strategy to exploit)
+            Q1, _ = torch.linalg.qr(torch.randn(m, m, generator=g, dtype=torch.float64))
+            A = Q1 @ A
+        A = A.to(dt)
+        B, C = None, None
     elif kind == "int":  # exact integer factorisation, rank r
         r = it["r"]
         lim = 16 if dtype == "float64" else 4
@@ -569,9 +609,12 @@ def check_ls(ctx: Ctx, case, lines_out=None) -> bool:
                 ok = False
         if lines_out is not None:
             lines_out.append((case, rec, "cert", f"c10.lscert {m} {n} {wl(Af[k])} {wl(bf[k])} {wl(xf[k])}"))
-            if default_cfg and r > 0:
+            if default_cfg and r > 0 and Bi is not None:
                 lines_out.append((case, rec, "ref", f"c10.lsref {m} {r} {n} {wl(Bi)} {wl(Ci)} {wl(bf[k])}"))
-            if name.startswith("PINV") and m * n > 0:
+            # (the O(n^3) model streams cost ~0.5 s per 32 x 32 system: of the pass-9 systems only those marked `model` run them,
+            #  all of them are judged by the O(n^2) exact certificates `cert` / `dtcert` and the wrapper product)
+            heavy = case["items"][k].get("kind") in ("orth", "lie") and not (case["items"][k].get("model") and max(m, n) <= 40)
+            if name.startswith("PINV") and m * n > 0 and not heavy:
                 # the kernel unfolded one level: torch's SVD is the contract parameter, the tolerance defaulting
                 # (`pinvCutoff`) and V S^+ U^T b are the Lean model's (`pinvForwardSvd`, theorem pinv_svd_forward_minnorm)
                 Us, Ss, Vhs = torch.linalg.svd(Af[k], full_matrices=False)
@@ -581,7 +624,7 @@ def check_ls(ctx: Ctx, case, lines_out=None) -> bool:
                                   f"c10.pinvsvd {m} {n} {Ss.numel()} {0 if at_ is None else 1} {to_wire(float(at_ or 0.0))} "
                                   f"{0 if rt_ is None else 1} {to_wire(float(rt_ or 0.0))} {to_wire(eps)} {wl(Af[k])} {wl(Us)} {wl(Ss)} "
                                   f"{wl(Vhs.mT)} {wl(bf[k])}"))
-            if name.startswith("LSTSQ") and getattr(sol, "driver", None) in ("gelsd", "gelss") and m * n > 0:
+            if name.startswith("LSTSQ") and getattr(sol, "driver", None) in ("gelsd", "gelss") and m * n > 0 and not heavy:
                 # the SVD drivers unfolded one level: torch's SVD is the contract parameter; the rcond defaulting
                 # (`lstsqCutoff`: None -> max(m,n)*eps, negative -> LAPACK machine precision: eps/2 in gelsd, eps in gelss),
                 # the strict comparison with rcond*s1 and V S^+ U^T b are the Lean model's (`lstsqForwardSvd`, theorem
@@ -603,7 +646,7 @@ def check_ls(ctx: Ctx, case, lines_out=None) -> bool:
                                   f"{to_wire(float(rt_ or 0.0))} {to_wire(eps)} {wl(Af[k])} {wl(Q_)} {wl(lam_)} {wl(bf[k])}"))
             if name.startswith("PINV"):
                 lines_out.append((case, rec, "matvec", f"c10.matvec {n} {m} {wl(Kf[k])} {wl(bf[k])}"))
-                if default_cfg:
+                if default_cfg and not heavy:
                     lines_out.append((case, rec, "penrose", f"c10.penrose {m} {n} {wl(Af[k])} {wl(Kf[k])}"))
             else:
                 # LSTSQ.forward returns the kernel's solution itself
@@ -612,6 +655,23 @@ def check_ls(ctx: Ctx, case, lines_out=None) -> bool:
                 if not (d <= 64 * eps * (sc + 1e-300)):
                     ctx.disagree("ls.wrapper", rep_case(case), f"item {k}: {name} differs from lstsq(A,b,rcond,driver).solution by {d:.3e}")
                     ok = False
+    if name == "PINV" and lines_out is not None and m * n > 0:
+        # (pass 9) the same law for the DEFAULT tolerances (atol 0, rtol max(m,n)*eps): the result must be the minimum-norm
+        # least-squares solution of A with the singular values <= max(m,n)*eps*s1 set to zero — judged by the exact certificate
+        # (A_t^T (A_t x - b) = 0 and x orthogonal to null(A_t)) whenever no singular value lies within a factor 4 of the cut-off
+        for k, rec in enumerate(recs):
+            U, sv, Vh = torch.linalg.svd(rec["A"], full_matrices=True)
+            s1 = float(sv[0]) if sv.numel() else 0.0
+            cut = max(m, n) * eps * s1
+            if s1 == 0.0 or any(cut / 4 <= float(v) <= 4 * cut for v in sv):
+                ctx.count("ls.dtrunc.ambiguous")
+                continue
+            kk = int((sv > cut).sum())
+            At = (U[:, :kk] * sv[:kk]) @ Vh[:kk]
+            xs = Vh[:kk].T @ ((U[:, :kk].T @ rec["b"]) / sv[:kk])
+            trec = {**rec, "A": At, "r": kk, "s1": s1, "sr": float(sv[kk - 1]) if kk else 0.0, "null": Vh[kk:].T, "trunc": True,
+                    "cut": cut, "xs": xs, "sv": sv, "A0": rec["A"]}
+            lines_out.append((case, trec, "dtcert", f"c10.lscert {m} {n} {wl(At)} {wl(bf[k])} {wl(xf[k])}"))
     if name in TRUNC_CUT and lines_out is not None:
         # documented semantics of the tolerance arguments: singular values below the cut-off are treated as zero, i.e. the
         # result is the minimum-norm least-squares solution of the truncated matrix (judged only when no singular value
@@ -712,7 +772,10 @@ def judge_ls(ctx: Ctx, case, rec, what, rep):
             ms = make_solver(name)
             ctx.fail(cc, f"ls-{what}: {name} differs from V S^+ U^T b with the documented cut-off {law} = {cut:.3e} "
                          f"({', '.join(f'{a_} {getattr(ms, a_, None)}' for a_ in ('atol', 'rtol', 'rcond', 'driver') if hasattr(ms, a_))}) "
-                         f"by {d:.3e} > {tol:.3e} ({m}x{n}, kept {len(kept)} of {len(sv)} singular values, {dtype})" + sfx(case))
+                         f"by {d:.3e} > {tol:.3e} ({m}x{n}, kept {len(kept)} of {len(sv)} singular values, {dtype}); |x| = "
+                         f"{float(rec['x'].norm()):.3e}, minimum-norm least-squares solution |x_model| = {float(xm.norm()):.3e}, |Ax-b| = "
+                         f"{float((rec['A'] @ rec['x'] - rec['b']).norm()):.3e} vs {float((rec['A'] @ xm - rec['b']).norm()):.3e}; "
+                         f"A[0,:6] = {rec['A'][0, :6].tolist()}, b[:6] = {rec['b'][:6].tolist()}" + sfx(case))
             ctx.disagree(tag, cc, f"|x - x_model| = {d:.3e} > {tol:.3e}")
     elif what == "eigh":
         v = nums(rep)
@@ -737,6 +800,27 @@ def judge_ls(ctx: Ctx, case, rec, what, rep):
             ctx.fail(cc, f"ls-eigh: {name} differs from Q L^+ Q^T b (eigenvalues of modulus <= {cut:.3e} dropped) by {d:.3e} > {tol:.3e} "
                          f"({n}x{n}, kept {len(kept)} of {n} eigenvalues, {dtype})" + sfx(case))
             ctx.disagree("ls.eigh", cc, f"|x - x_model| = {d:.3e} > {tol:.3e}")
+    elif what == "dtcert":
+        g, res, xn, bn, an = nums(rep)
+        scale = s1 * (s1 * xn + bn)
+        tol = 64 * eps * dim * scale * kap
+        ctx.count("ls.dtrunc")
+        stat("ls.dtrunc." + dtype, g / (tol + 1e-300))
+        nullc = float((rec["null"].T @ rec["x"]).norm()) if rec["null"].numel() else 0.0
+        xsn = float(rec["xs"].norm())
+        toln = 64 * eps * dim * kap * (xsn + (bn / sr if sr > 0 else 0.0))
+        if r == 0:
+            toln = 64 * eps * dim * (bn / max(s1, 1e-300) if s1 > 0 else 0.0)
+        dx = float((rec["x"] - rec["xs"]).norm())
+        if not (g <= tol + 1e-300) or not (nullc <= toln + 1e-300) or not (dx <= toln + 1e-300):
+            wb = case.get("_wrap_bad", {}).get(rec["k"])
+            sv = rec["sv"]
+            ctx.fail(cc, f"ls-minnorm-default: {name} (default tolerances) is not the minimum-norm least-squares solution: "
+                         f"|A^T(Ax-b)| = {g:.3e} (tol {tol:.3e}), component of x in null(A) {nullc:.3e} (tol {toln:.3e}), |x| = {xn:.3e} but the "
+                         f"minimum-norm solution has |x_svd| = {xsn:.3e}, |x - x_svd| = {dx:.3e}; {m}x{n}, numerical rank {r} (singular values "
+                         f"{float(sv[0]):.3e} .. {float(sv[max(r - 1, 0)]):.3e} kept, {float(sv[r]) if r < len(sv) else 0.0:.3e} .. dropped at cut-off "
+                         f"{rec['cut']:.3e}), {dtype}; A[0,:6] = {rec['A0'][0, :6].tolist()}, b[:6] = {rec['b'][:6].tolist()}"
+                         + (f"; wrapper: {wb}" if wb else "") + sfx(case))
     elif what == "tcert":
         g, res, xn, bn, an = nums(rep)
         scale = s1 * (s1 * xn + bn)
@@ -780,6 +864,7 @@ def judge_ls(ctx: Ctx, case, rec, what, rep):
         ctx.count("ls.wrapper.pinv")
         stat("ls.wrapper.pinv", d / (tol + 1e-300))
         if not (d <= tol + 1e-300):
+            case.setdefault("_wrap_bad", {})[rec["k"]] = f"forward differs from pinv(A, atol, rtol, hermitian) @ b by {d:.3e} > {tol:.3e}"
             ctx.disagree("ls.wrapper", cc, f"{name}: forward differs from pinv(A, atol, rtol, hermitian) @ b by {d:.3e} > {tol:.3e}")
     elif what == "penrose":
         p1, p2, p3, p4, an, pn = nums(rep)
@@ -1897,6 +1982,45 @@ def corner_cases():
         sp(data="float", vscale=-100, vscale2=100, seed=9010), sp(data="float", dtype="float32", vscale=-40, seed=9011),
         {**sp(seed=9012), "malformed": "blk", "dn2": 1}, {**sp(seed=9013), "malformed": "dim"},
     ]
+    # (pass 9, seed C07-6) SQUARE systems at and beyond n = 32 that are rank deficient WITHOUT an exactly zero pivot (a shortcut
+    # through an LU solve is flagged by LAPACK only for exact zeros), nearly rank deficient, and the structured Gauss-Newton
+    # Jacobians of under-determined so3 / se3 alignments; b in and out of the range; both dtypes; 31 / 30 as controls
+    ko = 0
+
+    def orth(solver, n_, zeros, smin, bk, dtype):
+        nonlocal ko
+        ko += 1
+        return ls(solver, n_, n_, [{"kind": "orth", "zeros": zeros, "smin": smin, "cexp": 1, "b": bk, "seed": 9300 + ko,
+                                    "model": zeros == 1 and bk == "generic" and n_ <= 32}], dtype=dtype)
+
+    def lie(group, N_, mix, bk, dtype):
+        nonlocal ko
+        ko += 1
+        nn = (3 if group == "so3" else 6) * N_
+        return ls("PINV", nn, nn, [{"kind": "lie", "group": group, "N": N_, "mix": mix, "b": bk, "seed": 9400 + ko,
+                                   "model": not mix and bk == "generic" and dtype == "float64" and nn < 40}], dtype=dtype)
+
+    C["ls"] += [orth("PINV", 31, 1, None, "generic", "float64"), orth("PINV", 31, 10, None, "consistent", "float64")]      # controls
+    for n_ in (32, 33):
+        for zeros, smin in ((1, None), (n_ // 3, None), (0, 1e-13), (0, None)):
+            for bk in ("generic", "consistent"):
+                for dtype in ("float64", "float32"):
+                    if (smin is not None and dtype == "float32") or (zeros == 0 and smin is None and bk == "consistent"):
+                        continue
+                    C["ls"].append(orth("PINV", n_, zeros, smin, bk, dtype))
+    C["ls"] += [orth("PINV", 48, 1, None, "generic", "float64"), orth("PINV", 48, 1, None, "consistent", "float32"),
+                orth("PINV", 48, 16, None, "consistent", "float64"), orth("PINV", 48, 16, None, "generic", "float32"),
+                orth("PINV", 48, 0, 1e-13, "generic", "float64"),
+                orth("PINV", 64, 1, None, "generic", "float64"), orth("PINV", 64, 21, None, "consistent", "float32"),
+                orth("PINV", 100, 1, None, "generic", "float64"), orth("PINV", 100, 33, None, "consistent", "float64")]
+    for solver in ("LSTSQ", "LSTSQ:gelsd"):
+        C["ls"] += [orth(solver, 32, 1, None, "generic", "float64"), orth(solver, 32, 10, None, "consistent", "float32")]
+    for group, Nc, N1, N2 in (("so3", 10, 11, 16), ("se3", 5, 6, 8)):
+        C["ls"] += [lie(group, Nc, False, "generic", "float64"),                                                          # control (< 32)
+                    lie(group, N1, False, "generic", "float64"), lie(group, N1, False, "consistent", "float64"),
+                    lie(group, N1, False, "generic", "float32"), lie(group, N1, False, "consistent", "float32"),
+                    lie(group, N1, True, "generic", "float64"), lie(group, N2, False, "generic", "float64"),
+                    lie(group, N2, True, "consistent", "float64")]
     # (45) ill-scaled operands inside one product: every magnitude x position (large block first AND last, a small block after
     # normal ones), integer data in float compared exactly, float data against the componentwise bound, both entry points
     ki = 0
@@ -2878,6 +3002,30 @@ def gen_ls_cases(ctx: Ctx, count):
             for it in items:
                 it.update({"kind": "float", "cexp": 0, "ascale": 0, "b": "generic", "bscale": 0})
                 it.pop("sym", None)
+    # (pass 9) square systems at and beyond n = 32, rank deficient / nearly so without exact zero pivots, Gauss-Newton Jacobians of
+    # under-determined so3 / se3 alignments; default solvers; single systems and small batches
+    for i in range(max(count // 40, 3)):
+        dtype = rng.choice(["float64", "float64", "float32"])
+        solver = rng.choice(["PINV", "PINV", "PINV", "LSTSQ", "LSTSQ:gelsd"])
+        if rng.random() < 0.3 and solver == "PINV":
+            group = rng.choice(["so3", "se3"])
+            N_ = rng.choice([10, 11, 12, 13, 16, 20] if group == "so3" else [5, 6, 7, 8, 10])
+            n = (3 if group == "so3" else 6) * N_
+            items = [{"kind": "lie", "group": group, "N": N_, "mix": rng.random() < 0.4, "b": rng.choice(["generic", "consistent"]),
+                      "seed": rng.randrange(1 << 30)}]
+        else:
+            n = rng.choice([31, 32, 32, 33, 34, 40, 48, 64] + ([] if ctx.quick else [100]))
+            nb = 1 if n > 40 or rng.random() < 0.7 else 2
+            items = []
+            for _ in range(nb):
+                how = rng.choice(["zeros", "zeros", "smin", "full"])
+                items.append({"kind": "orth", "zeros": rng.choice([1, 1, 2, n // 3, n - 1]) if how == "zeros" else 0,
+                              "smin": (10.0 ** -rng.choice([9, 11, 13])) if how == "smin" and dtype == "float64" else None,
+                              "cexp": rng.choice([0, 1, 2]), "ascale": rng.choice([0, 0, -20, 20]),
+                              "b": rng.choice(["generic", "generic", "consistent", "zero"]), "seed": rng.randrange(1 << 30)})
+        cases.append({"kind": "ls", "solver": solver, "dtype": dtype, "batch": [len(items)] if len(items) > 1 else [], "m": n, "n": n,
+                      "items": items, "grad": rng.choice(["plain", "plain", "nograd"]), "view": rng.choice(["plain", "plain", "T"]),
+                      "viewb": "plain"})
     return cases
 
 
@@ -2890,11 +3038,16 @@ def run_ls(ctx: Ctx, cases):
             continue
         guarded(ctx, case, check_ls, lines)
         m, n = case["m"], case["n"]
-        kinds = tuple(sorted({(it["kind"], it.get("r", -1) if it["kind"] == "int" else it.get("cexp", -1), it["b"]) for it in case["items"]}))
+        kinds = tuple(sorted({(it["kind"], it.get("r", -1) if it["kind"] == "int" else
+                               f"{it.get('zeros')}/{it.get('smin')}/{it.get('group')}/{it.get('N')}/{it.get('mix')}" if it["kind"] in ("orth", "lie")
+                               else it.get("cexp", -1), it["b"]) for it in case["items"]}))
         ctx.note_case(("ls", case["solver"], case["dtype"], len(case["batch"]), m, n, kinds), m >= 2 or n >= 2)
         ctx.count(f"ls.{case['solver']}.{case['dtype']}")
         ctx.count("ls.shape." + ("tall" if m > n else "wide" if m < n else "square"))
         for it in case["items"]:
+            if it["kind"] in ("orth", "lie"):
+                ctx.count("ls.rank." + it["kind"] + ("" if it.get("zeros") or it["kind"] == "lie" else ".full"))
+                continue
             ctx.count("ls.rank." + ("diag" if it["kind"] == "diag" else "full" if it["kind"] == "float" or it["r"] == min(m, n)
                                     else ("zero" if it["r"] == 0 else "deficient")))
         ctx.sample({"stream": "ls", "solver": case["solver"], "dtype": case["dtype"], "batch": case["batch"], "m": m, "n": n,
@@ -2904,6 +3057,7 @@ def run_ls(ctx: Ctx, cases):
         judge_ls(ctx, case, rec, what, rep)
     for case in cases:
         case.pop("_recs", None)
+        case.pop("_wrap_bad", None)
 
 
 def gen_chol_cases(ctx: Ctx, count):
